@@ -69,6 +69,14 @@ CHECKS = {
             "InvalidHandleReference verbatim). (b) Lifetimes.tla UniqueHandle machine: invariants HClosedOnce/HUnique "
             "model-checked, TLC-generated and random ownership histories replayed on UniqueHandle<CountingPolicy>; TrObj.tla "
             "requires the exact ownership/close/release counters after every operation.", "6 C15"),
+    "C07": ("Tables.tla: definitions evolving by add/remove/mark-deleted/reorder/replace-by-fungible with ids never reused; "
+            "MC_Tables checks W6 (every pair of definitions of a history is mutually readable as Project prescribes, reader "
+            "positioned after the table) over all histories of <= 4 steps (6 in the thorough tier); TLC emits the 254 "
+            "reachable definitions (pool/tables.json) which are instantiated as C++ table types; every ordered (writer, "
+            "reader) pair x entry assignments is written, read and validated by TrCodec.tla C07R (projection, sentinel).", "6 C07"),
+    "C08": ("Gen_TableMut.tla: TLC takes valid table encodings apart into entry frames and emits every single-defect "
+            "reassembly (hash, count, duplicate, unknown, padding, declared size, corrupt/truncated value); the real decoder's "
+            "status, value, consumed length and error category are compared with Dec of Wire.tla (TrCodec.tla).", "6 C08"),
 }
 
 PENDING_REASON = "check under construction in this session (DESIGN.md section 12); moves to checks when built"
